@@ -607,6 +607,10 @@ func (c *Ctx) callStatic(s *State, fr *Frame, x ssa.Instruction, fn *ssa.Functio
 	full := fullFuncName(fn)
 	c.lastCallee = full
 	s.calllog = append(s.calllog, relFuncName(fn))
+	if s.callArgs == nil {
+		s.callArgs = map[string][][]Val{}
+	}
+	s.callArgs[relFuncName(fn)] = append(s.callArgs[relFuncName(fn)], args)
 	var resReg ssa.Value
 	if cv, ok := x.(*ssa.Call); ok {
 		resReg = cv
@@ -861,7 +865,7 @@ func (c *Ctx) applyContractAt(s *State, fr *Frame, site string, pos token.Pos, f
 		if strings.HasPrefix(e.Label, "bv:") && !c.ar.bv {
 			continue // bit-level clause: not usable (and not needed) by callers verified with integer arithmetic
 		}
-		if strings.Contains(e.Text, "calledinloop(") || strings.Contains(e.Text, "lastresult") {
+		if strings.Contains(e.Text, "calledinloop(") || strings.Contains(e.Text, "lastresult") || strings.Contains(e.Text, "lastarg(") || strings.Contains(e.Text, "callarg(") {
 			// clauses about the callee's own call log (results, per-iteration counts) are checked on the callee only
 			continue
 		}
